@@ -39,6 +39,41 @@ CLAIMS = {
         note="Axioms: the standard library's FloatAxioms (specification of primitive floats) and, through Flocq, Classical_Prop.classic and "
              "ClassicalDedekindReals.sig_not_dec. Sequential (one thread); the concurrent statement is C02/C03.",
         ref="DESIGN.md section 4, C08"),
+    "C05": dict(
+        text="Theorems in coq/Props/C05.v for all label-name lists, tuples of arbitrary scalar-value strings and histories: the bytes hashed "
+             "for a tuple are injective in the tuple (boundary shifts, empty values, any characters); two requests on one vector (positional, "
+             "or map form = positional on the values in declared order, independent of map iteration / key order) return the same child iff "
+             "the tuples are equal, under the explicit hypothesis that the two hashed byte strings do not collide under FNV-1a-64 "
+             "(c05_same_child_iff, c05_with_same_child_iff); a new child carries exactly (declared names x values) ++ constant labels sorted "
+             "by name and starts at zero / as the empty histogram; a request is Ok iff cardinality / key set match, and an Err appends a dead "
+             "handle only; local vector caches always target the vector's own child for the key. The unconditional iff is refuted "
+             "(c05_refuted_collision) = known finding C05-fnv-collision, reported as KNOWN-FINDING; any other sharing/splitting of children "
+             "is a VIOLATION. Tied to the code by running the real CounterVec/IntCounterVec/GaugeVec/IntGaugeVec/HistogramVec and both local "
+             "vectors on generated request sequences over all cuts of short strings, compared with the Gallina model inside Coq, plus an "
+             "executable spec written from the property text (abstract tuple->child ledger, children observed through power-of-two updates) "
+             "evaluated on the implementation's own observations.",
+        note="Model of src/vec.rs hash_label_values / hash_labels / get_or_create / delete, value.rs make_label_pairs, local vec caches. "
+             "Same-child theorems cover histories without remove/reset between the two requests (a later request creates a new child by "
+             "design). Histogram vectors assumed to have valid buckets. Print Assumptions lists only kernel primitives. No theorem links "
+             "spec_c05 to the model (the correspondence run does).",
+        ref="DESIGN.md section 4 C05 and section 13"),
+    "C06": dict(
+        text="Theorems in coq/Props/C06.v (24 statements, for all registries, collectors and histories): register is Ok iff no descriptor "
+             "equals a registered one, none clashes with a common label, none disagrees with a descriptor ever registered under its name or "
+             "with another descriptor of the collector, none is listed twice and the collector is not already registered; the error kind "
+             "(AlreadyReg / Msg) follows the first objectionable descriptor; a refused registration returns the identical state, so every "
+             "continuation of every history is unaffected (c06_failed_is_noop / _invisible, no hypothesis); unregister is Ok iff the "
+             "collector is registered, removes exactly it and it can be registered again; gather after unregister collects only from the "
+             "remaining collectors; every register/unregister history on a fresh registry refines a hash-free abstract registry "
+             "(c06_history_refines_spec). The iff statements carry explicit no-64-bit-collision hypotheses; without them the iff is refuted "
+             "by a concrete FNV-1a collision of two valid names (c06_refuted_collision) = known finding C06-fnv-collision. Tied to the code "
+             "by generated histories (3-25 calls, library and custom collectors with 1-4 overlapping descriptors, all short histories over "
+             "a 6-collector pool) run on the real Registry and compared observation by observation with the model inside Coq; spec_c06 "
+             "replays the implementation's own answers on a structural abstract registry.",
+        note="Model of registry.rs register/unregister (after b8e028c and c627cf3). A collector's identity is the set of its descriptors; "
+             "where a collector has both an equal-registered and another objectionable descriptor either error kind is accepted (the text "
+             "gives no priority). No axioms (only kernel float/int primitives are listed).",
+        ref="DESIGN.md section 4 C06 and section 13"),
     "C07": dict(
         text="Theorems in coq/Props/C07.v for all collected family lists, prefixes and common-label maps: gather returns one family per "
              "name, names strictly increasing, no empty family, every collected sample exactly once and nothing else, samples sorted by "
@@ -50,6 +85,21 @@ CLAIMS = {
         note="Model of registry.rs gather + collect of all collector kinds. HashMap order is quantified over (permutations) in the theorems "
              "and sampled through fresh maps in the correspondence. Mixed-kind families are C14's known finding.",
         ref="DESIGN.md section 4, C07"),
+    "C13": dict(
+        text="Theorems in coq/Props/C13.v (20 obligations): decode_stream (encode_stream fams) = Some fams for all well-formed families with "
+             "every optional field set or unset and doubles as 64-bit patterns (every NaN payload); the stream is self-delimiting and nothing "
+             "else is in it (c13_stream_boundaries, c13_nothing_else); exact writer contents in every outcome (old buffer, one varint-length "
+             "+ body frame per accepted family up to the first refused one); Err exactly when a family has no name or no metrics; gather "
+             "stays in the well-formed domain; the independent decoder dispatches on a field table that equals, by a proof obligation "
+             "regenerated on every run (c13_schema), the table parsed from /repo/proto/proto_model.proto. Tied to the code by running the "
+             "real ProtobufEncoder on generated families (half built through the setters, half wire-level literals with arbitrary unset "
+             "fields), comparing the bytes with the model inside Coq and evaluating the independent decoder (spec_c13) on the "
+             "implementation's own bytes.",
+        note="rust-protobuf 3.7.2 and the generated proto_model.rs are modelled by hand and tied only by the byte comparison; unknown fields "
+             "and messages above i32::MAX bytes are not generated; the writer never fails here (C17 covers failing writers); the .proto is "
+             "read by the plugin's own parser (unsupported constructs break c13_schema rather than being ignored). Axioms: FloatAxioms "
+             "Prim2SF_valid, SF2Prim_Prim2SF (bits2f/f2bits round trip) only.",
+        ref="DESIGN.md section 4 C13 and section 13"),
     "C14": dict(
         text="Theorems in coq/Props/C14.v: if collected families of one name agree on the type, every gathered sample carries the payload "
              "of its family's type and the type is permutation-invariant (c14_homogeneous_if, c14_type_perm_invariant); the "
